@@ -1,4 +1,5 @@
 """C07 - Names resolve lexically; out-of-scope or misplaced constructs are rejected."""
+import progflow
 import staticflow
 
 RULE = ("direction A: TLC enumerates spec/FamC07.tla: every ordered pair (definition site, use site) of a variable over 18 definition and 22 use sites "
@@ -6,7 +7,7 @@ RULE = ("direction A: TLC enumerates spec/FamC07.tla: every ordered pair (defini
         "variables/operand/body, sibling switch cases and case expression, parameter, function body, block in a function, return value, call argument), "
         "both orders at the same site, 7 x 9 sites for function definitions and calls (incl. self-call and call from an earlier function), every placement "
         "of break/continue/return/func in 23 contexts, 36 redefinition / duplicate-name / missing-return / caller-local variants. The verdict of the real "
-        "transpiler for both targets is validated by TLC against spec/TshStatic.tla. Distinct = distinct source text with a specified verdict.")
+        "transpiler for both targets is validated by TLC against spec/TshStatic.tla; every accepted program is then run (Bash) and its trace validated against spec/TshDyn.tla. Distinct = distinct source text with a specified verdict.")
 ASSUME = ["spec/TshStatic.tla: a block is checked in a copy of the context and its definitions are discarded at its end; a function body sees the globals defined before it",
           "a bare `return` is unspecified and not compared"]
 
@@ -14,6 +15,25 @@ ASSUME = ["spec/TshStatic.tla: a block is checked in a copy of the context and i
 def run(ctx):
     fam = ctx.tlc_family("FamC07", constants={"Tier": '"%s"' % ctx.tier})
     ctx.exhaustive["FamC07"] = True
+    ctx.static_verdicts = {}
     failures = staticflow.judge(ctx, fam, "fam")
     staticflow.report(ctx, failures)
+    # the accepted programs are also run: every use site prints, so a name that resolves to the wrong declaration (or a construct that is accepted
+    # but emitted as something else) shows in the output prescribed by TshDyn
+    acc = [c for c in fam if ctx.static_verdicts.get(c["id"], {}).get("expected") == "A" and not ctx.static_verdicts[c["id"]]["unspec"]]
+    res = progflow.validate(ctx, acc, "dyn")
+    bad = []
+    for cid, (c, v) in res.items():
+        ctx.evaluations += 1
+        if not c["obs"].get("accepted"):
+            continue                      # reported above
+        if v["st"].startswith("undef") or v["st"] == "diverge":
+            ctx.dropped["dyn-" + v["st"]] = ctx.dropped.get("dyn-" + v["st"], 0) + 1
+            continue
+        if v["st"].startswith("stuck"):
+            raise Exception("TshStatic accepts %s but TshDyn cannot run it: %s" % (cid, v["st"]))
+        ctx.traces_validated += 1
+        if not v["ok"]:
+            bad.append((c, v, progflow.signature(c, v)))
+    progflow.report(ctx, bad)
     return ctx.finish(rule=RULE, assumptions=ASSUME)
